@@ -305,6 +305,8 @@ def main():
                 out.append(s.normalvariate(0.0, 1.0))
                 out.append(int(s.random_bool()))
                 out.append(s.choice_weighted([1, 2, 3], [0.2, 0.3, 0.5]))
+                out.append(s.choice_weighted([1, 2, 3], [0.0, 0.0, 0.0]))      # degenerate weights: still the seeded stream
+                out.append(s.choice_weighted([4, 5], [1e-9, 1e-9]))
                 out.append(sum(x * (10 ** j) for j, x in enumerate(s.shuffle([1, 2, 3, 4]))))
             return out
         sa, sb = stream(seed), stream(seed)
